@@ -113,7 +113,9 @@ func (fc *FnCtx) eval(st *State, e ast.Expr) Val {
 	case *ast.FuncLit:
 		r := fc.alloc(st, "closure")
 		st.closures[r] = &closure{lit: e, fc: fc}
-		return Val{r, fc.typeOf(e)}
+		v := Val{r, fc.typeOf(e)}
+		fc.linkClosureContract(st, e, v)
+		return v
 	case *ast.TypeAssertExpr:
 		x := fc.eval(st, e.X)
 		tt := fc.typeOf(e.Type)
@@ -149,6 +151,20 @@ func (fc *FnCtx) evalIdent(st *State, e *ast.Ident) Val {
 		if o.Pkg() != nil && o.Parent() == o.Pkg().Scope() { // package-level variable
 			return fc.globalVar(st, o)
 		}
+		if r := fc.root(); r.isClosure {
+			// captured variable of the closure under verification: an arbitrary value fixed at entry
+			if v, ok := r.entry.vars[o]; ok {
+				st.vars[o] = v
+				return v
+			}
+			v := fc.freshVal(st, "cap_"+o.Name(), o.Type())
+			if r.entry != nil {
+				r.entry.vars[o] = v
+				r.paramsEntry[o.Name()] = v
+			}
+			st.vars[o] = v
+			return v
+		}
 		fc.unsupp(e.Pos(), "variable %s not in scope of the symbolic state", e.Name)
 	case *types.Const:
 		if v, ok := constTerm(fc, o.Val(), o.Type()); ok {
@@ -173,7 +189,88 @@ func (fc *FnCtx) isBoxed(o types.Object) bool {
 	return false
 }
 
+// immutableGlobalInit returns the initializer of a package-level variable that is never assigned, never has its
+// address taken and is never element-assigned anywhere in its package (so it still holds its initial value).
+func (eng *Engine) immutableGlobalInit(o *types.Var) (ast.Expr, *Pkg) {
+	p := eng.pkgs[o.Pkg().Path()]
+	if p == nil {
+		return nil, nil
+	}
+	if r, ok := p.globalInit[o]; ok {
+		return r, p
+	}
+	if p.globalInit == nil {
+		p.globalInit = map[*types.Var]ast.Expr{}
+	}
+	p.globalInit[o] = nil
+	var init ast.Expr
+	mutated := false
+	isO := func(e ast.Expr) bool {
+		for {
+			switch x := ast.Unparen(e).(type) {
+			case *ast.Ident:
+				return p.TypesInfo.Uses[x] == o || p.TypesInfo.Defs[x] == o
+			case *ast.IndexExpr:
+				e = x.X
+			case *ast.SelectorExpr:
+				e = x.X
+			case *ast.SliceExpr:
+				e = x.X
+			default:
+				return false
+			}
+		}
+	}
+	for _, f := range p.Syntax {
+		ast.Inspect(f, func(n ast.Node) bool {
+			switch s := n.(type) {
+			case *ast.ValueSpec:
+				for i, nm := range s.Names {
+					if p.TypesInfo.Defs[nm] == o && len(s.Values) == len(s.Names) {
+						init = s.Values[i]
+					}
+				}
+			case *ast.AssignStmt:
+				for _, l := range s.Lhs {
+					if isO(l) {
+						mutated = true
+					}
+				}
+			case *ast.IncDecStmt:
+				if isO(s.X) {
+					mutated = true
+				}
+			case *ast.UnaryExpr:
+				if s.Op == token.AND && isO(s.X) {
+					mutated = true
+				}
+			case *ast.CallExpr:
+				if id, ok := s.Fun.(*ast.Ident); ok && (id.Name == "append" || id.Name == "copy" || id.Name == "clear" || id.Name == "delete") && len(s.Args) > 0 && isO(s.Args[0]) {
+					mutated = true
+				}
+			}
+			return true
+		})
+	}
+	if mutated || init == nil {
+		return nil, p
+	}
+	p.globalInit[o] = init
+	return init, p
+}
+
 func (fc *FnCtx) globalVar(st *State, o *types.Var) Val {
+	if init, p := fc.eng.immutableGlobalInit(o); init != nil {
+		if _, isLit := ast.Unparen(init).(*ast.CompositeLit); isLit || p.TypesInfo.Types[init].Value != nil {
+			sub := fc
+			if p != fc.pkg {
+				sub = &FnCtx{eng: fc.eng, pkg: p, smt: fc.smt, parent: fc, info: p.TypesInfo, loopOrd: map[ast.Stmt]int{}, boxed: map[types.Object]bool{}, inline: fc.inline}
+			}
+			v := sub.eval(st, init)
+			v.Ty = o.Type()
+			return v
+		}
+	}
 	key := "G$" + o.Pkg().Name() + "." + o.Name()
 	v := Val{fc.comp(st, key, fc.smt.sortOf(o.Type())), o.Type()}
 	fc.assumeTyped(st, v)
@@ -225,7 +322,9 @@ func (fc *FnCtx) evalSelector(st *State, e *ast.SelectorExpr) Val {
 			base := fc.eval(st, e.X)
 			return fc.walkFields(st, base, sel.Index(), e)
 		case types.MethodVal:
-			fc.unsupp(e.Pos(), "method value %s", exprText(e))
+			// method value x.M: an (uninterpreted) function of the receiver
+			recv := fc.eval(st, e.X)
+			return Val{fc.methodValueTerm(recv, sel.Obj().(*types.Func)), fc.typeOf(e)}
 		}
 	}
 	// qualified identifier pkg.Name
@@ -286,8 +385,31 @@ func (fc *FnCtx) addrOf(st *State, x ast.Expr) Val {
 		return fc.addrOf(st, x.X)
 	case *ast.CompositeLit:
 		t := fc.typeOf(x)
-		v := fc.evalComposite(st, x, t)
 		p := Val{fc.alloc(st, "new"), types.NewPointer(t)}
+		if su, ok := t.Underlying().(*types.Struct); ok && !isTimeType(t) {
+			// field-wise initialisation (no datatype needed for large / foreign structs)
+			vals := make([]string, su.NumFields())
+			for i := 0; i < su.NumFields(); i++ {
+				vals[i] = fc.smt.zero(su.Field(i).Type())
+			}
+			for i, el := range x.Elts {
+				if kv, ok := el.(*ast.KeyValueExpr); ok {
+					j := fieldIndex(su, kv.Key.(*ast.Ident).Name)
+					if j < 0 {
+						fc.unsupp(el.Pos(), "unknown field in literal")
+					}
+					vals[j] = fc.evalElt(st, kv.Value, su.Field(j).Type()).T
+				} else {
+					vals[i] = fc.evalElt(st, el, su.Field(i).Type()).T
+				}
+			}
+			for i := 0; i < su.NumFields(); i++ {
+				fc.writeFieldPtr(st, p, i, vals[i])
+			}
+			fc.assumeDynType(st, p)
+			return p
+		}
+		v := fc.evalComposite(st, x, t)
 		fc.storeDeref(st, p, v)
 		fc.assumeDynType(st, p)
 		return p
@@ -641,6 +763,7 @@ func (fc *FnCtx) evalComposite(st *State, e *ast.CompositeLit, t types.Type) Val
 		n := len(e.Elts)
 		base := fc.alloc(st, "lit")
 		s := Val{fmt.Sprintf("(mk_Slice %s 0 %d %d)", base, n, n), t}
+		st.known["freshbase:"+s.T] = true
 		for i, el := range e.Elts {
 			if _, ok := el.(*ast.KeyValueExpr); ok {
 				fc.unsupp(el.Pos(), "keyed slice literal")
@@ -769,4 +892,10 @@ func (fc *FnCtx) chanRecv(st *State, ch Val, e ast.Expr) (Val, Val) {
 		st.assume(imp(ok.T, c.T))
 	}
 	return v, ok
+}
+
+func (fc *FnCtx) methodValueTerm(recv Val, m *types.Func) string {
+	name := "mv_" + sanitize(structKeyName(recv.Ty)+"_"+m.Name())
+	fc.smt.declare(name, fmt.Sprintf("(declare-fun %s (%s) Int)", name, fc.smt.sortOf(recv.Ty)))
+	return "(" + name + " " + recv.T + ")"
 }
